@@ -10,7 +10,10 @@
            generic, fast, pooled and batched entry points; the keyspace is observed through
            commands only (KEYS/TYPE/PTTL/dumps); every trace is validated by KsTrace against the
            ONE-keyspace specification.  Families of their own: two-key commands (RENAME,
-           RPOPLPUSH/LMOVE, MSETNX, MSET) and a full SCAN iteration.
+           RPOPLPUSH/LMOVE, MSETNX, MSET), a full SCAN iteration, script-cache commands (SCRIPT
+           LOAD / EXISTS / FLUSH, EVAL, EVALSHA: one cache per server, RedisKeyspace!DoScript)
+           mixed into the random sequences, and "wide" servers (65..256 shards, 40 keys,
+           MSET/MGET/DEL/EXISTS over two or three keys).
 """
 import os
 from lib import vlib
@@ -56,6 +59,11 @@ def run(tier):
             vlib.vh(["shard", "record", "--seed", vlib.seed() * 10 + n, "--n", 600 if thorough else 150, "--len", 6, "--shards", n, "--twokey", "--out", tr])
             vlib.validate_runs(rep, "KsTrace", "KsTrace", tr, wd, f"twokey_{n}shards", dev_cfgs=DEV, describe=kc.DESCRIBE, strip=("s",))
             os.remove(tr)
+        # runs dense in script-cache commands (load / run by text / run by digest / probe / flush)
+        tr = os.path.join(wd, f"scripts{n}.ndjson")
+        vlib.vh(["shard", "record", "--seed", vlib.seed() * 10 + n + 5, "--n", 400 if thorough else 80, "--len", 25, "--shards", n, "--scripts", "1", "--out", tr])
+        vlib.validate_runs(rep, "KsTrace", "KsTrace", tr, wd, f"scripts_{n}shards", dev_cfgs=DEV, describe=kc.DESCRIBE, strip=("s",))
+        os.remove(tr)
         tr = os.path.join(wd, f"scan{n}.ndjson")
         # MULTI / EXEC replay on N shards (bodies with multi-key and whole-keyspace commands, no WATCH)
         tx = os.path.join(wd, f"txn{n}.ndjson")
@@ -64,6 +72,12 @@ def run(tier):
         os.remove(tx)
         vlib.vh(["shard", "scan", "--shards", n, "--out", tr])
         vlib.validate_runs(rep, "KsTrace", "KsTrace", tr, wd, f"scan_{n}shards", dev_cfgs=DEV, describe=kc.DESCRIBE, strip=("s", "keys", "returned"))
+    # far more shards than bits in a machine word, few keys, commands naming two or three keys at once
+    for n in ((65, 128, 200, 256) if thorough else (128, 200)):
+        tr = os.path.join(wd, f"wide{n}.ndjson")
+        vlib.vh(["shard", "wide", "--shards", n, "--seed", vlib.seed() * 10 + n % 7, "--n", 150 if thorough else 60, "--len", 40, "--out", tr])
+        vlib.validate_runs(rep, "KsTrace", "KsTrace", tr, wd, f"wide_{n}shards", dev_cfgs=DEV, describe=kc.DESCRIBE, strip=("s",))
+        os.remove(tr)
     rep.notes["steps_by_entry_path"] = paths
     rep.cov["distinct_nontrivial"] = rep.cov["traces_validated_against_impl"]
     rep.cov["rule"] = ("a case is one command sequence on a real N-shard server (N in %s), observed through commands only and "
